@@ -509,20 +509,118 @@ theorem fen4_roundtrip_abs_of_ok {g g' : Game} (h : Game.ofFen g.fen4 = .ok g') 
 covered by missing pawns, no pawn on the first or last rank) holds of the game's board -/
 def MaterialOK (g : Game) : Prop := MaterialOKBoard g.board
 
-/-- **C11 / item 8**: the exported text is accepted by the reader and re-imports to a game with
-the same placement, side to move, castling rights and en-passant file -/
-theorem fen_roundtrip_abs (g : Game) (hm : MaterialOK g) :
+/-- on a square of the board the rules' `at` of the abstract position is the engine's `get` -/
+theorem abs_at_eq_get (g : Game) (r c : Int) (h : 0 ≤ r ∧ r < 8 ∧ 0 ≤ c ∧ c < 8) :
+    g.abs.at (r, c) = g.get ⟨r, c⟩ := by
+  rw [at_eq_boardAt g.abs r c h]
+  exact boardAt_eq_get g r c
+
+/-- `RightsInv` of a game whose kings stand on their cached squares says that the castling
+rights of its position are backed by the board -/
+theorem rightsOkBoard_of_rightsInv {g : Game} (hr : g.RightsInv)
+    (hkw : g.kingExists .white = true) (hkb : g.kingExists .black = true) :
+    RightsOkBoard g.abs := by
+  have e04 := abs_at_eq_get g 0 4 (by omega)
+  have e07 := abs_at_eq_get g 0 7 (by omega)
+  have e00 := abs_at_eq_get g 0 0 (by omega)
+  have e74 := abs_at_eq_get g 7 4 (by omega)
+  have e77 := abs_at_eq_get g 7 7 (by omega)
+  have e70 := abs_at_eq_get g 7 0 (by omega)
+  unfold RightsOkBoard
+  rw [e04, e07, e00, e74, e77, e70]
+  exact ⟨fun h => ⟨(hr.wk h).2.2 hkw, (hr.wk h).1⟩, fun h => ⟨(hr.wq h).2.2 hkw, (hr.wq h).1⟩,
+    fun h => ⟨(hr.bk h).2.2 hkb, (hr.bk h).1⟩, fun h => ⟨(hr.bq h).2.2 hkb, (hr.bq h).1⟩⟩
+
+/-- the square the double-stepping pawn of the recorded en-passant file came from -/
+def epOrigin (g : Game) : Pos :=
+  ⟨match g.player with | .white => 6 | .black => 1, g.top.enPassant⟩
+
+/-- `EpInv`, together with the emptiness of the square the pawn came from (which `EpInv` does not
+record), says that the en-passant file of the position is backed by the board -/
+theorem epOkBoard_of_epInv {g : Game} (he : g.EpInv)
+    (ho : g.top.enPassant < 8 → g.get (epOrigin g) = none) : EpOkBoard g.abs := by
+  have h0 := enPassant_nonneg g.top
+  intro f hf
+  show match g.player with
+    | .white => _
+    | .black => _
+  have hf' : (if g.top.enPassant < 8 then some g.top.enPassant.toNat else none) = some f := hf
+  by_cases h8 : g.top.enPassant < 8
+  · rw [if_pos h8] at hf'
+    have hfe : (f : Int) = g.top.enPassant := by
+      have := Option.some.inj hf'
+      omega
+    have he' := he h8
+    have ho' := ho h8
+    unfold epOrigin at ho'
+    rw [hfe]
+    cases hp : g.player <;> rw [hp] at he' ho' <;> simp only at he' ho' ⊢
+    · rw [abs_at_eq_get g 4 _ ⟨by omega, by omega, h0, h8⟩,
+        abs_at_eq_get g 5 _ ⟨by omega, by omega, h0, h8⟩,
+        abs_at_eq_get g 6 _ ⟨by omega, by omega, h0, h8⟩]
+      exact ⟨he'.1, he'.2, ho'⟩
+    · rw [abs_at_eq_get g 3 _ ⟨by omega, by omega, h0, h8⟩,
+        abs_at_eq_get g 2 _ ⟨by omega, by omega, h0, h8⟩,
+        abs_at_eq_get g 1 _ ⟨by omega, by omega, h0, h8⟩]
+      exact ⟨he'.1, he'.2, ho'⟩
+  · rw [if_neg h8] at hf'; cases hf'
+
+/-- **C11 / item 8**: the exported text of a game with possible material whose castling rights
+and en-passant file are backed by the board (what the reader checks) is accepted by the reader
+and re-imports to a game with the same placement, side to move, castling rights and en-passant
+file -/
+theorem fen_roundtrip_abs (g : Game) (hm : MaterialOK g) (hr : RightsOkBoard g.abs)
+    (he : EpOkBoard g.abs) : ∃ g', Game.ofFen g.fen = .ok g' ∧ g'.abs = g.abs :=
+  ofFen_complete (fen_strict g) hm hr he
+
+/-- the three conditions are exactly what is needed: the reader accepts the exported text of `g`
+if and only if `g` passes the material, rights and en-passant checks -/
+theorem fen_reimport_iff (g : Game) :
+    (∃ g', Game.ofFen g.fen = .ok g') ↔
+      MaterialOK g ∧ RightsOkBoard g.abs ∧ EpOkBoard g.abs := by
+  constructor
+  · rintro ⟨g', h⟩
+    have e := fen_roundtrip_abs_of_ok h
+    obtain ⟨pieces, side, cast, ep, rest, sc, player, st0, st, wk, bk, -, -, -, -, -, -, -, -, -,
+      hmw, hmb, hpe, -, -, hg'⟩ := ofFen_ok_inv h
+    have hb : g'.board = g.board := congrArg Spec.APos.board e
+    have hb' : g'.board = sc.board := by rw [hg']; exact (updatePhase_fields _).1
+    obtain ⟨h1, h2⟩ := ofFen_rightsOkBoard h
+    rw [e] at h1 h2
+    refine ⟨?_, h1, h2⟩
+    unfold MaterialOK MaterialOKBoard
+    rw [← hb, hb']
+    exact ⟨hmw, hmb, hpe⟩
+  · rintro ⟨hm, hr, he⟩
+    obtain ⟨g', h, _⟩ := fen_roundtrip_abs g hm hr he
+    exact ⟨g', h⟩
+
+/-- the same for a well-formed game: `RightsInv` and `EpInv` do the work, given that both kings
+stand on their cached squares and the square the en-passant pawn came from is empty -/
+theorem fen_roundtrip_abs_of_wf (g : Game) (hw : g.WF) (hm : MaterialOK g)
+    (hkw : g.kingExists .white = true) (hkb : g.kingExists .black = true)
+    (ho : g.top.enPassant < 8 → g.get (epOrigin g) = none) :
     ∃ g', Game.ofFen g.fen = .ok g' ∧ g'.abs = g.abs :=
-  ofFen_complete (fen_strict g) hm
+  fen_roundtrip_abs g hm (rightsOkBoard_of_rightsInv hw.rights hkw hkb)
+    (epOkBoard_of_epInv hw.epInv ho)
+
+/-- the same for a game whose position the rules call sane (no invariant needed) -/
+theorem fen_roundtrip_abs_of_sane (g : Game) (hs : Spec.sane g.abs = true) :
+    ∃ g', Game.ofFen g.fen = .ok g' ∧ g'.abs = g.abs :=
+  ofFen_complete_of_sane (fen_strict g) hs
 
 /-- the same with the hypothesis `WF.ep` spelled out (it is not needed) -/
-theorem fen_roundtrip_abs' (g : Game) (_hep : g.top.enPassant ≤ 8) (hm : MaterialOK g) :
+theorem fen_roundtrip_abs' (g : Game) (_hep : g.top.enPassant ≤ 8) (hm : MaterialOK g)
+    (hr : RightsOkBoard g.abs) (he : EpOkBoard g.abs) :
     ∃ g', Game.ofFen g.fen = .ok g' ∧ g'.abs = g.abs :=
-  fen_roundtrip_abs g hm
+  fen_roundtrip_abs g hm hr he
 
 end Chess
 
 #print axioms Chess.fen_roundtrip_abs
+#print axioms Chess.fen_reimport_iff
+#print axioms Chess.fen_roundtrip_abs_of_wf
+#print axioms Chess.fen_roundtrip_abs_of_sane
 #print axioms Chess.fen_roundtrip_abs_of_ok
 #print axioms Chess.expandRank_fenRow
 #print axioms Chess.fen4_fields
